@@ -527,6 +527,24 @@ def r_resize(e, R):
                     return val == isinstance(x.ops[0], ast.Eq)
             return None
         return ev
+    # which quantity decides "nothing to do"?  It must be the recorded size: a momentary count (workers registered / alive) equals the
+    # request by coincidence after idle time-outs, and the recorded size then stays at its old, larger value
+    noop = []
+    for t_ in g.nodes:
+        if t_.kind == "test" and isinstance(t_.ast, ast.Compare) and len(t_.ast.ops) == 1 and isinstance(t_.ast.ops[0], ast.Eq):
+            sides = [t_.ast.left, t_.ast.comparators[0]]
+            if any(isinstance(s_, ast.Name) and s_.id == tgt for s_ in sides):
+                other = [s_ for s_ in sides if not (isinstance(s_, ast.Name) and s_.id == tgt)]
+                rets_ = [n_ for n_ in g.nodes if n_.kind == "stmt" and isinstance(n_.ast, ast.Return) and g.on_branch(n_, t_, "T")]
+                if other and rets_:
+                    noop.append((t_, other[0]))
+    for t_, other in noop:
+        R.check(isinstance(other, ast.Attribute) and other.attr == "_max_workers" and isinstance(other.value, ast.Name) and other.value.id == selfn, "R-RESIZE",
+                f"{f.short}: 'nothing to do' compares the request with the recorded size", f.short, norm(t_.ast),
+                f"the resize is skipped when the request equals `{norm(other)}` instead of the recorded max_workers: after some workers idled out the two differ, "
+                "the recorded size keeps its old value and the next submit tops the pool back up beyond the requested size", e.loc(f, t_.ast))
+    if not noop:
+        raise AnalysisError("resize: the 'same size' early return is not recognised")
     mthread = lambda x: isinstance(x, ast.Attribute) and isinstance(x.value, ast.Name) and x.value.id == selfn and bool(set(e.pt.ev(f, x)) & a.manager_objs)
     raises = lambda n: n.kind == "stmt" and isinstance(n.ast, ast.Raise)
     effect = lambda n: n in posts or n in sp or n in mw or n in waitj
